@@ -10,6 +10,9 @@ import IcingaProofs.C08.CalLemmas
 import IcingaProofs.C08.Nested
 import IcingaProofs.C08.CalCore
 import IcingaProofs.C08.Tick
+import IcingaProofs.C08.World
+import IcingaProofs.C08.CalClosed
+import IcingaProofs.Gen.C08Tables
 
 namespace Icinga.C08
 
@@ -251,6 +254,29 @@ example :
                         postSegs := [], queries := [(140000, false)] },
                cutoff := 130000, now := 133600, preVb := some 100000 } = some .tickInside := by decide
 
+/-! ## The own ranges are computed for the whole refreshed region -/
+
+/-- **update_asks_refreshed_region.**  For every state, region and flag: whenever `UpdateRegion` refreshes a region, the
+    update function (the calendar layer) is invoked with a region that covers it (`specAsk`), so no instant of the
+    refreshed region is answered without its ranges having been evaluated. -/
+theorem update_asks_refreshed_region (p : Period) (u : UpdIn) (b e : Int) (clear : Bool) (ts : List Int) :
+    specAsk (observe p u b e clear ts) (p.asked b e clear) = none := by
+  unfold specAsk Period.asked UpdObs.noop UpdObs.effB Period.effBegin observe
+  simp only
+  cases clear <;> by_cases h : e < numOf p.ve <;> simp [h]
+
+/-- **tick_asks_refreshed_region.**  The same for the non-clearing update of a timer run (after the purge). -/
+theorem tick_asks_refreshed_region (p : Period) (u : UpdIn) (now : Int) (ts : List Int) :
+    specAsk (observeTick p u now ts).upd ((p.purge (now - 3600)).asked (numOf (p.purge (now - 3600)).ve) (now + 86400) false) = none := by
+  rw [purge_ve]
+  unfold specAsk Period.asked UpdObs.noop UpdObs.effB Period.effBegin observeTick
+  simp only [purge_ve]
+  by_cases h : now + 86400 < numOf p.ve <;> simp [h]
+
+/-- The clause rejects a call that refreshed [50, 100] (old valid_end 50) but had the ranges computed for [60, 100] only. -/
+example : specAsk (observe { segs := [], vb := some 0, ve := some 50 } { prefer := true, own := [], incs := [], excs := [] } 10 100 false [])
+    (some (60, 100)) = some .ownComputed := by decide
+
 /-! ## Agreement with the referenced periods themselves (F-C08c)
 
   Full statement the property asks for (NOT true of the code, see `start_order_counterexample`):
@@ -349,6 +375,147 @@ theorem nested_forest_spec (T : PTree) (b e t : Int) (hbe : b ≤ e) (hwf : T.WF
 example :
     let T := PTree.node false [(0, 10)] [] [PTree.node true [(2, 8)] [] [PTree.node true [(4, 6)] [] []]]
     (T.evalP 0 20).segs = [(0, 2), (4, 6), (8, 10)] ∧ T.sem 5 = true ∧ T.sem 3 = false := by decide
+
+/-! ## Whole runs over several periods: includes / excludes looked up by name (IcingaModel/C08/World.lean) -/
+
+/-- **update_step_ok.**  One `UpdateRegion` on one object of a world: the invariant is kept and the observation
+    meets the specification, the merged lists being those of the world. -/
+theorem update_step_ok (ts : List Int) (W : World) (hW : W.WF) (id : Nat) (b e : Int) (clear : Bool) (own : List Seg)
+    (hbe : b ≤ e) (hown : SegsWF own) :
+    (W.update ts id b e clear own).1.WF ∧ ∀ o ∈ (W.update ts id b e clear own).2, specStep o = none := by
+  unfold World.update
+  cases hf : W.find id with
+  | none => exact ⟨hW, by intro o ho; cases ho⟩
+  | some en =>
+    have hen := hW en (W.find_mem id en hf)
+    have hi := W.segsOf_wf hW en.cfg.incs
+    have hx := W.segsOf_wf hW en.cfg.excs
+    refine ⟨?_, ?_⟩
+    · apply World.set_wf W hW
+      intro x hx'
+      exact updateRegion_wf x.st _ b e clear (hW x hx') hown hi
+    · intro o ho
+      simp only [List.mem_singleton] at ho
+      subst ho
+      exact updateRegion_spec en.st _ b e clear ts hbe (fun _ => hen) hown hi hx
+
+theorem set_active_wf (W : World) (hW : W.WF) (id : Nat) :
+    (W.set id fun x => { x with active := true }).WF :=
+  World.set_wf W hW id _ (fun en hen => hW en hen)
+
+/-- **tickLoop_ok.**  The loop of `UpdateTimerHandler`, for every iteration order (duplicates, unknown and inactive
+    ids included): every period's turn meets the tick specification against the world as it is at that turn. -/
+theorem tickLoop_ok (ts : List Int) (now : Int) (owns : List (Nat × List Seg)) (ho : ∀ kv ∈ owns, SegsWF kv.2) :
+    ∀ (order : List Nat) (W : World), W.WF →
+      (World.tickLoop ts now owns W order).1.WF ∧ ∀ o ∈ (World.tickLoop ts now owns W order).2, specStep o = none := by
+  intro order
+  induction order with
+  | nil => intro W hW; exact ⟨hW, by intro o h; cases h⟩
+  | cons id rest ih =>
+    intro W hW
+    unfold World.tickLoop
+    cases hf : W.find id with
+    | none => exact ih W hW
+    | some en =>
+      simp only
+      by_cases ha : en.active = true
+      · simp only [ha, if_true]
+        have hen := hW en (W.find_mem id en hf)
+        have hi := W.segsOf_wf hW en.cfg.incs
+        have hx := W.segsOf_wf hW en.cfg.excs
+        have hown := ownOf_wf owns ho id
+        have hW' : (W.set id fun x => { x with st := x.st.tick (W.updIn en.cfg (ownOf owns id)) now }).WF := by
+          apply World.set_wf W hW
+          intro x hx'
+          exact tick_wf x.st _ now (hW x hx') hown hi
+        obtain ⟨h1, h2⟩ := ih _ hW'
+        refine ⟨h1, ?_⟩
+        intro o hmem
+        rw [List.mem_cons] at hmem
+        rcases hmem with rfl | hmem
+        · exact timerTick_spec en.st _ now ts hen hown hi hx
+        · exact h2 o hmem
+      · simp only [ha]
+        exact ih W hW
+
+/-- **step_ok.**  Every operation keeps the invariant and produces only observations that meet the specification. -/
+theorem step_ok (ts : List Int) (W : World) (hW : W.WF) (op : Op) (hop : op.WF) :
+    (W.step ts op).1.WF ∧ ∀ o ∈ (W.step ts op).2, specStep o = none := by
+  cases op with
+  | update id b e clear own => exact update_step_ok ts W hW id b e clear own hop.1 hop.2
+  | start id now own =>
+    obtain ⟨h1, h2⟩ := update_step_ok ts W hW id now (now + 86400) true own (by omega) hop
+    exact ⟨set_active_wf _ h1 id, h2⟩
+  | tick now order owns => exact tickLoop_ok ts now owns hop order W hW
+
+/-- **world_trace_spec.**  Whole-trace theorem.  For every set of configured periods (any `includes` / `excludes`
+    names — cyclic, dangling, self-referring —, any `prefer_includes`), every state `W` whose stored segments are
+    non-empty, and EVERY sequence of operations — `UpdateRegion` with any region `b ≤ e` and flag, activations in
+    any order, timer runs at any clock values in any iteration order, with whatever non-empty segments the update
+    functions return — every observation of the run satisfies the specification predicate: window, default outside
+    it, and the inside-formula with the lists looked up by name at that moment.  No bound on lengths; the
+    invariant is established by `step_ok`. -/
+theorem world_trace_spec (ts : List Int) (ops : List Op) : ∀ (W : World), W.WF → (∀ op ∈ ops, op.WF) →
+    ∀ o ∈ (World.run ts W ops).2, specStep o = none := by
+  induction ops with
+  | nil => intro W _ _ o h; cases h
+  | cons op ops ih =>
+    intro W hW hops o ho
+    unfold World.run at ho
+    simp only [List.mem_append] at ho
+    obtain ⟨h1, h2⟩ := step_ok ts W hW op (hops op (List.mem_cons_self))
+    rcases ho with ho | ho
+    · exact h2 o ho
+    · exact ih _ h1 (fun op' h => hops op' (List.mem_cons_of_mem _ h)) o ho
+
+
+/-- **world_trace_spec_from_config.**  The same from the initial state: for every configuration (ids with their
+    attributes, nothing computed yet, nothing active) and every sequence of well-formed operations. -/
+theorem world_trace_spec_from_config (ts : List Int) (cfg : List (Nat × PCfg)) (ops : List Op)
+    (hops : ∀ op ∈ ops, op.WF) :
+    ∀ o ∈ (World.run ts (cfg.map fun c => ({ id := c.1, cfg := c.2 } : PEntry)) ops).2, specStep o = none := by
+  apply world_trace_spec ts ops _ _ hops
+  intro en hen
+  rw [List.mem_map] at hen
+  obtain ⟨c, _, rfl⟩ := hen
+  intro s hs
+  cases hs
+
+/-- Non-vacuity: P (id 0, own 0–200000 from its update function) excludes B (id 1, 100–200) and includes the
+    dangling name 7.  B is started, then P, then the timer runs once (order P, B) a day later: the trace has four
+    observations, P answers "outside" at 150 and "inside" at 50, and the run of the timer extends both windows. -/
+example :
+    let cfg : List (Nat × PCfg) := [(0, { prefer := true, incs := [7], excs := [1] }), (1, { prefer := true, incs := [], excs := [] })]
+    let W0 : World := cfg.map fun c => ({ id := c.1, cfg := c.2 } : PEntry)
+    let r := World.run [50, 150] W0 [.start 1 0 [(100, 200)], .start 0 0 [(0, 200000)],
+                                     .tick 86400 [0, 1] [(0, []), (1, [(90000, 90100)])]]
+    r.2.length = 4 ∧
+    (r.2.map fun o => match o with | .upd i o => (i, o.queries) | .tick i k => (i, k.upd.queries)) =
+      [(1, [(50, false), (150, true)]), (0, [(50, true), (150, false)]),
+       (0, [(50, true), (150, true)]), (1, [(50, true), (150, true)])] ∧
+    ((r.1.find 0).map fun en => (en.st.vb, en.st.ve)) = some (some 82800, some 200000) ∧
+    ((r.1.find 1).map fun en => en.st.segs) = some [(90000, 90100)] := by decide
+
+/-- The step specification rejects a wrong trace (window does not cover the region). -/
+example :
+    specStep (.upd 0 { prefer := true, clear := true, b := 0, e := 100, own := [], incs := [], excs := [],
+                       preSegs := [], preVe := none, vb := some 0, ve := some 50, postSegs := [], queries := [] })
+      = some .windowCovers := by decide
+
+/-- **world_start_order_counterexample.**  F-C08c at the level of whole runs: the same configuration (P = id 0 with own
+    0–200000 excludes B = id 1 with own 100–200), the same two activations at the same instant — only their order
+    differs.  B first: P answers "outside" at 150.  P first: the name resolves, but B has no segments yet; afterwards
+    both windows contain 150, B answers "inside" and P answers "inside" too, although every observation of the run
+    satisfies `specStep` (`world_trace_spec`): the per-call specification speaks about the lists that were merged, the
+    property about the excluded period.  A timer run 5 minutes later changes nothing. -/
+theorem world_start_order_counterexample :
+    let cfg : List (Nat × PCfg) := [(0, { prefer := true, incs := [], excs := [1] }), (1, { prefer := true, incs := [], excs := [] })]
+    let W0 : World := cfg.map fun c => ({ id := c.1, cfg := c.2 } : PEntry)
+    let good := (World.run [] W0 [.start 1 0 [(100, 200)], .start 0 0 [(0, 200000)]]).1
+    let bad := (World.run [] W0 [.start 0 0 [(0, 200000)], .start 1 0 [(100, 200)], .tick 300 [0, 1] []]).1
+    ((good.find 0).map fun en => en.st.isInside 150) = some false ∧
+    ((bad.find 0).map fun en => en.st.isInside 150) = some true ∧
+    ((bad.find 1).map fun en => en.st.isInside 150) = some true := by decide
 
 /-! ## Layer 2: calendar (lib/icinga/legacytimeperiod.cpp)
 
@@ -536,5 +703,235 @@ theorem dayMatches_range (tz : Tz) (h : TzOk tz) (hd : TzDrift tz) (s1 s2 : Spec
   have : decide (D < d2 + 1) = decide (D ≤ d2) := by
     rw [decide_eq_decide]; omega
   rw [this]
+
+/-- **dayMatches_monthDay.**  "day N" / "<month> N": for `N ≥ 0` exactly the N-th day counted from the first of
+    the month (of the reference year; the month of the reference unless one is named), for `N < 0`
+    exactly the |N|-th day counted backwards from the last day of that month (the day before the first
+    of the next month): "day -1" is the last day.  Closed form; no search, no `mktime`. -/
+theorem dayMatches_monthDay (tz : Tz) (h : TzOk tz) (mon : Option Int) (mday stride D : Int) :
+    let y := (civilFromDays D).1
+    let m := match mon with | some m => m | none => (civilFromDays D).2.1 - 1
+    dayMatchesTok tz { first := .monthDay mon mday, second := none, stride := stride } D =
+      some (decide (D = if mday < 0 then daysFromCivil y (m + 2) 1 - 1 + (mday + 1)
+                        else daysFromCivil y (m + 1) 1 + (mday - 1))) := by
+  intro y m
+  rw [dayMatches_single tz h]
+  simp only [resolveDay]
+  split
+  · rename_i hneg
+    simp only [Option.map_some, Option.some.injEq, decide_eq_decide]
+    have := month_last_day2 y m
+    show D = daysFromCivil y (m + 2) 0 - (-mday - 1) ↔ _
+    rw [this]; omega
+  · simp only [Option.map_some, Option.some.injEq, decide_eq_decide]
+    show D = daysFromCivil y (m + 1) mday ↔ _
+    rw [daysFromCivil_day y (m + 1) mday]
+
+example : resolveDay (.monthDay (some 1) (-1)) (daysFromCivil 2024 6 15) = some (daysFromCivil 2024 2 29) ∧
+          resolveDay (.monthDay none (-2)) (daysFromCivil 2025 4 3) = some (daysFromCivil 2025 4 29) := by decide
+
+/-- **dayMatches_nthWeekday_last.**  "monday -1 [month]" (n < 0) matches exactly the day that has that weekday
+    and lies in the |n|-th block of seven days counted backwards from the last day of the month. -/
+theorem dayMatches_nthWeekday_last (tz : Tz) (h : TzOk tz) (w n stride D : Int) (mon : Option Int)
+    (hw0 : 0 ≤ w) (hw7 : w < 7) (hn : n < 0) :
+    let last := daysFromCivil (civilFromDays D).1 ((match mon with | some m => m | none => (civilFromDays D).2.1 - 1) + 2) 1 - 1
+    dayMatchesTok tz { first := .nthWeekday w n mon, second := none, stride := stride } D =
+      some (decide (weekdayOf D = w ∧ last - 7 * (-n) < D ∧ D ≤ last - 7 * (-n - 1))) := by
+  intro last
+  rw [dayMatches_single tz h]
+  obtain ⟨day, hday, hwd, _, hneg⟩ := nth_weekday_correct w n (civilFromDays D).1
+    (match mon with | some m => m | none => (civilFromDays D).2.1 - 1) hw0 hw7 (by omega)
+  have hres : resolveDay (.nthWeekday w n mon) D = some day := by
+    simp only [resolveDay]; exact hday
+  rw [hres]
+  simp only [Option.map_some, Option.some.injEq, decide_eq_decide]
+  obtain ⟨hp1, hp2⟩ := hneg hn
+  rw [month_last_day2] at hp1 hp2
+  unfold weekdayOf at *
+  constructor
+  · intro hD; subst hD; exact ⟨hwd, hp1, hp2⟩
+  · rintro ⟨a, b1, b2⟩
+    show D = day
+    have hp1' : last - 7 * (-n) < day := hp1
+    have hp2' : day ≤ last - 7 * (-n - 1) := hp2
+    omega
+
+/-- **rangeSeg_wrap_and_24h.**  "… for ranges ending at 24:00 or wrapping past midnight": a range `b-e` on day `D`
+    runs from `b` o'clock local time of `D` to `e` o'clock of `D` when `b < e`, and to `e` o'clock local
+    time of the NEXT calendar day otherwise (`22:00-02:00`, and `b-b` = 24 hours); 24:00 of `D` is the
+    local midnight of `D + 1` — also when `D` has 23 or 25 hours (no `+ 86400` on instants). -/
+theorem rangeSeg_wrap_and_24h (tz : Tz) (r : Int × Int) (D : Int) :
+    rangeSeg tz r D = (mkDay tz D r.1, if r.1 < r.2 then mkDay tz D r.2 else mkDay tz (D + 1) r.2) ∧
+    mkDay tz D 86400 = mkDay tz (D + 1) 0 := by
+  refine ⟨?_, ?_⟩
+  · unfold rangeSeg
+    by_cases hlt : r.1 < r.2
+    · have : ¬ r.1 ≥ r.2 := by omega
+      simp [hlt, this]
+    · have : r.1 ≥ r.2 := by omega
+      simp only [this, if_true, hlt, if_false]
+      rw [mkDay_next_day]
+  · have := mkDay_next_day tz D 0
+    simpa using this
+
+
+example : rangeSeg berlin2026 (79200, 7200) (daysFromCivil 2026 3 28) = (1774731600, 1774746000) ∧          -- 22:00-02:00 into the 23-hour day: 4 h - 1 h
+          rangeSeg berlin2026 (64800, 86400) (daysFromCivil 2026 3 29) = (1774800000, 1774821600) := by decide  -- 18:00-24:00 on it
+
+/-! ## End to end: one period whose update function is the calendar layer -/
+
+/-- **inside_window_formula.**  The content of `updateRegion_spec` at one instant of the window, as an equation: after an
+    effective update, `IsInside(t)` IS the property's formula (`expectInside`). -/
+theorem inside_window_formula (p : Period) (u : UpdIn) (b e : Int) (clear : Bool) (t : Int)
+    (hbe : b ≤ e)
+    (hS : clear = false → ∀ s ∈ p.segs, s.1 < s.2) (hown : ∀ s ∈ u.own, s.1 < s.2)
+    (hinc : ∀ L ∈ u.incs, ∀ s ∈ L, s.1 < s.2) (hexc : ∀ L ∈ u.excs, ∀ s ∈ L, s.1 < s.2)
+    (hnoop : (observe p u b e clear [t]).noop = false)
+    (vb ve : Int) (hvb : (p.updateRegion u b e clear).vb = some vb) (hve : (p.updateRegion u b e clear).ve = some ve)
+    (h1 : vb ≤ t) (h2 : t ≤ ve) :
+    (p.updateRegion u b e clear).isInside t = expectInside (observe p u b e clear [t]) t := by
+  have h := updateRegion_spec p u b e clear [t] hbe hS hown hinc hexc
+  unfold specUpdate at h
+  rw [hnoop] at h
+  simp only [Bool.false_eq_true, if_false] at h
+  cases hw : specWindow (observe p u b e clear [t]) with
+  | some c => rw [hw] at h; cases h
+  | none =>
+    rw [hw] at h
+    have hq : (observe p u b e clear [t]).queries = [(t, (p.updateRegion u b e clear).isInside t)] := rfl
+    rw [hq] at h
+    simp only [specQueries] at h
+    have hq2 : specQuery (observe p u b e clear [t]) (t, (p.updateRegion u b e clear).isInside t) = none := by
+      cases h2 : specQuery (observe p u b e clear [t]) (t, (p.updateRegion u b e clear).isInside t) with
+      | none => rfl
+      | some c => rw [h2] at h; cases h
+    unfold specQuery at hq2
+    have hvb' : (observe p u b e clear [t]).vb = some vb := hvb
+    have hve' : (observe p u b e clear [t]).ve = some ve := hve
+    rw [hvb', hve'] at hq2
+    simp only at hq2
+    have hout : ¬ (t < vb ∨ t > ve) := by omega
+    simp only [hout, if_false] at hq2
+    by_cases heq : (p.updateRegion u b e clear).isInside t = expectInside (observe p u b e clear [t]) t
+    · exact heq
+    · simp [heq] at hq2
+
+
+/-- **legacy_update_end_to_end.**  Definition → answer, for one `UpdateRegion(b, e, clear)` of a period whose update
+    function is `LegacyTimePeriod::ScriptFunc` (token-level core) — the two layers composed, the update function being
+    fed the region the interval layer really passes (`Period.asked`: `begin` moved up to `valid_end`): for every
+    time zone with `TzOk`, entry list, previous state, included / excluded segment lists, and every instant `t` of the
+    resulting window, `IsInside(t)` holds iff
+
+        Own  :=  (non-clearing: t was stored before and lies outside the refreshed region [begin', e))  or
+                 some local calendar day D from the day of begin' to the last day whose midnight is ≤ e matches an
+                 entry's day definition and t lies in one of its ranges on D (wrapping / 24:00 ranges included),
+        (Own ∧ ¬Excluded) ∨ Included   (prefer_includes)   resp.   (Own ∨ Included) ∧ ¬Excluded.
+
+    No hypothesis on the returned segments: `scriptFunc_wf` shows they are non-empty. -/
+theorem legacy_update_end_to_end (tz : Tz) (htz : TzOk tz) (entries : List EntryTok)
+    (p : Period) (prefer : Bool) (incs excs : List (List Seg)) (b e : Int) (clear : Bool)
+    (fb fe : Int) (own : List Seg) (t : Int)
+    (hbe : b ≤ e) (hS : clear = false → ∀ s ∈ p.segs, s.1 < s.2)
+    (hinc : ∀ L ∈ incs, ∀ s ∈ L, s.1 < s.2) (hexc : ∀ L ∈ excs, ∀ s ∈ L, s.1 < s.2)
+    (hask : p.asked b e clear = some (fb, fe))
+    (hr : scriptFuncTok tz entries fb fe = some own)
+    (vb ve : Int)
+    (hvb : (p.updateRegion { prefer := prefer, own := own, incs := incs, excs := excs } b e clear).vb = some vb)
+    (hve : (p.updateRegion { prefer := prefer, own := own, incs := incs, excs := excs } b e clear).ve = some ve)
+    (h1 : vb ≤ t) (h2 : t ≤ ve) :
+    ((p.updateRegion { prefer := prefer, own := own, incs := incs, excs := excs } b e clear).isInside t = true ↔
+      let Own := (clear = false ∧ inside p.segs t = true ∧ ¬ (fb ≤ t ∧ t < e)) ∨
+                 ∃ D, localDay tz fb ≤ D ∧ mkDay tz D 0 ≤ e ∧ ∃ en ∈ entries, EntryCovers tz en D t
+      let Inc := ∃ L ∈ incs, inside L t = true
+      let Exc := ∃ L ∈ excs, inside L t = true
+      if prefer = true then (Own ∧ ¬ Exc) ∨ Inc else (Own ∨ Inc) ∧ ¬ Exc) := by
+  -- what was asked: the refreshed region, and the call is effective
+  have hnoop : (!clear && decide (e < numOf p.ve)) = false ∧ fb = p.effBegin b clear ∧ fe = e := by
+    unfold Period.asked at hask
+    split at hask
+    · cases hask
+    · rename_i hn
+      simp only [Option.some.injEq, Prod.mk.injEq] at hask
+      exact ⟨by simpa using hn, hask.1.symm, hask.2.symm⟩
+  obtain ⟨hn, hfb, hfe⟩ := hnoop
+  subst hfe
+  have hown := scriptFunc_wf tz entries fb fe own hr
+  have hio := scriptFunc_spec tz htz entries fb fe own hr t
+  rw [inside_window_formula p _ b fe clear t hbe hS hown hinc hexc (by simpa [UpdObs.noop, observe] using hn) vb ve hvb hve h1 h2]
+  unfold expectInside
+  simp only [observe, UpdObs.effB]
+  subst hfb
+  simp only [Period.effBegin] at hio ⊢
+  cases clear
+  · simp only [Bool.false_eq_true, if_false] at hio ⊢
+    by_cases hb : b < numOf p.ve
+    · simp only [hb, if_true] at hio ⊢
+      simp only [← hio]
+      by_cases hx : t < numOf p.ve
+      · have hx2 : ¬ numOf p.ve ≤ t := by omega
+        cases prefer <;> cases inside own t <;> simp [List.any_eq_true, hx, hx2]
+      · have hx2 : numOf p.ve ≤ t := by omega
+        by_cases hf : t < fe
+        · cases prefer <;> cases inside own t <;> simp [List.any_eq_true, hx, hx2, hf]
+        · have hf2 : fe ≤ t := by omega
+          cases prefer <;> cases inside own t <;> simp [List.any_eq_true, hx, hx2, hf, hf2]
+    · simp only [hb, if_false] at hio ⊢
+      simp only [← hio]
+      by_cases hx : t < b
+      · have hx2 : ¬ b ≤ t := by omega
+        cases prefer <;> cases inside own t <;> simp [List.any_eq_true, hx, hx2]
+      · have hx2 : b ≤ t := by omega
+        by_cases hf : t < fe
+        · cases prefer <;> cases inside own t <;> simp [List.any_eq_true, hx, hx2, hf]
+        · have hf2 : fe ≤ t := by omega
+          cases prefer <;> cases inside own t <;> simp [List.any_eq_true, hx, hx2, hf, hf2]
+  · simp only [if_true] at hio ⊢
+    simp only [← hio]
+    cases prefer <;> cases inside own t <;> simp [List.any_eq_true]
+
+
+/-- Non-vacuity: the hypotheses are satisfiable — a clearing update over the Berlin change to summer time asks the calendar for
+    exactly that region, the calendar returns two segments, and the window is set. -/
+example :
+    let en : List EntryTok :=
+      [{ dayDef := some { first := .weekday 1, second := none, stride := 1 }, ranges := some [(32400, 61200)] },
+       { dayDef := some { first := .date 2026 3 28, second := none, stride := 1 }, ranges := some [(79200, 7200)] }]
+    ({} : Period).asked 1774652400 1774911600 true = some (1774652400, 1774911600) ∧
+    (scriptFuncTok berlin2026 en 1774652400 1774911600).map (fun own =>
+      let p' := ({} : Period).updateRegion { prefer := false, own := own, incs := [], excs := [[(1774740000, 1774860000)]] } 1774652400 1774911600 true
+      (p'.vb, p'.ve, p'.isInside 1774735000, p'.isInside 1774741000, p'.isInside 1774870000)) =
+      some (some 1774652400, some 1774911600, true, false, true) := by decide
+
+/-! ## The name tables, regenerated from the source (gen/c08_tables.py → IcingaProofs/Gen/C08Tables.lean) -/
+
+/-- **weekday_table_matches_source.**  For EVERY string, the model's `weekdayFromString` (used by the calendar model
+    and by the declarative predicate `calSpec`) is the lookup in the table read from
+    `LegacyTimePeriod::WeekdayFromString` of the checked source tree. -/
+theorem weekday_table_matches_source (s : String) :
+    weekdayFromString s = lookupName Icinga.Gen.C08Tables.weekdaySrc s := by
+  unfold weekdayFromString
+  simp only [Icinga.Gen.C08Tables.weekdaySrc, lookupName]
+  split <;> simp_all
+
+/-- **month_table_matches_source.**  The same for `LegacyTimePeriod::MonthFromString` (0-based like `tm_mon`). -/
+theorem month_table_matches_source (s : String) :
+    monthFromString s = lookupName Icinga.Gen.C08Tables.monthSrc s := by
+  unfold monthFromString
+  simp only [Icinga.Gen.C08Tables.monthSrc, lookupName]
+  split <;> simp_all
+
+/-- **weekday_numbers_are_tm_wday.**  The numbers of the source's table are the calendar's: each English weekday
+    name maps to `weekdayOf` (= `tm_wday`) of a day that has that weekday (2023-01-01 was a Sunday), and the month
+    names count from january = 0 in calendar order. -/
+theorem weekday_numbers_are_tm_wday :
+    Icinga.Gen.C08Tables.weekdaySrc =
+      ["sunday", "monday", "tuesday", "wednesday", "thursday", "friday", "saturday"].zipIdx.map
+        (fun p => (p.1, weekdayOf (daysFromCivil 2023 1 (1 + p.2)))) ∧
+    Icinga.Gen.C08Tables.monthSrc =
+      ["january", "february", "march", "april", "may", "june", "july", "august", "september", "october",
+       "november", "december"].zipIdx.map (fun p => (p.1, (p.2 : Int))) := by decide
+
+example : weekdayFromString "funday" = none ∧ lookupName Icinga.Gen.C08Tables.weekdaySrc "friday" = some 5 := by decide
 
 end Icinga.C08
